@@ -107,6 +107,9 @@ def make_case(a, tier, idx=0):
             if idx % 3 == 2:
                 # the start symbol declared last (the grammar object is created around another nonterminal)
                 runs.append(run_config(a, kind, METHODS[idx % 2], dt, build_opts={'start_last': True}))
+            if idx % 3 == 0 and not a.get('pat'):
+                # every factor's weights are a view at a non-zero storage offset of a larger table
+                runs.append(run_config(a, kind, METHODS[(idx // 3) % 3], dt, build_opts={'offset_views': True}))
     a = {k: v for k, v in a.items() if k != 'pat'}
     return {'ag': a, 'runs': runs}
 
@@ -170,6 +173,8 @@ RANDOM_PROFILES = [
     dict(n_nts=(2, 4), max_rules=2, max_nodes=3, max_edges=3, weights='primes', p_inf=0.08, p_zero=0.2),
     dict(n_nts=(1, 2), max_rules=3, max_nodes=4, max_edges=4, weights='small', dom_sizes=(1, 2), start_arity=(0, 1, 2, 2)),
     dict(n_nts=(2, 3), max_rules=2, max_nodes=2, max_edges=3, weights='primes', dom_sizes=(2, 3), p_norules=0.4, allow_unused_terms=True),
+    # EMPTY domains: a node of an empty domain attached to no edge contributes the factor 0, tensors over it have no entries
+    dict(n_nts=(1, 3), max_rules=2, max_nodes=3, max_edges=2, weights='small', dom_sizes=(0, 2, 2), n_nls=(2, 2), start_arity=(0, 0, 1)),
 ]
 
 
@@ -231,6 +236,7 @@ def run(tier, seed):
         o.absorb_verdicts(cases, verdicts, load_findings())
         o.exhaustive = True
         o.extra['runs_judged'] = sum(len(c['runs']) for c in cases)
+        o.extra['grammars_with_empty_domain'] = sum(1 for a in ags if any(v == 0 for v in a['nls'].values()))
         o.extra['grammars_with_inf_weight'] = sum(1 for a in ags if any(INF in w for w in a['w'].values()))
         o.extra['grammars_with_ruleless_nt'] = sum(1 for a in ags if any((not d['t']) and all(r['lhs'] != n for r in a['rules']) for n, d in a['els'].items()))
         o.sample({'ag': cases[-1]['ag'], 'run0': cases[-1]['runs'][0]})
